@@ -205,12 +205,12 @@ def project (w r : FTy) (v : Val) : PRes := projTy w r v
 
 /-! ### The situation in which the code breaks the promise (kept out by `benign`) -/
 
-/-- K5: a *tagged* optional field known only to the reader, array encoding, at an index below
-    the end of the writer's array: the writer put a bare `null` there, the reader insists on the tag. -/
-def k5Hit (gs fs : Fields) (writerMax : Option Nat) : Bool :=
-  match writerMax with
-  | none => false
-  | some m => gs.any fun g => !g.1.skip && g.1.tag.isSome && (findField fs g.1.idx).isNone && g.1.idx ≤ m
+/-- K5 (repaired, docs/K5-candidate.diff): a *tagged* optional field known only to the reader, array
+    encoding, at an index below the end of the writer's array — the writer put a bare `null` there
+    and the reader used to insist on the tag.  Since the repair the reader accepts the bare `null`
+    (`Derive.bareNull`), so nothing is a hit any more; the predicate (and `benign` below) is kept so
+    that the place where the exclusion used to enter the proofs stays visible: `benign_always`. -/
+def k5Hit (_gs _fs : Fields) (_writerMax : Option Nat) : Bool := false
 
 def piecesMax (ps : List (Piece Bytes)) : Option Nat := maxPresent ps
 
@@ -257,7 +257,7 @@ def benignVars (k5 : Bool) (a b : EAttr) : Variants → Variants → Nat → Lis
 termination_by structural vs => vs
 end
 
-/-- K5 is not triggered anywhere in the value. -/
+/-- no hazard is triggered anywhere in the value (always true since the K5 repair: `benign_always`). -/
 def benign (w r : FTy) (v : Val) : Bool := benignP true w r v
 
 end Minicbor.Derive
